@@ -25,8 +25,14 @@ from drivers.common import atom_text, run_async
 READERS = ["tokenize", "parse", "parse_with_warnings", "parse_meta_only"]
 
 
+def _tok_text(t):
+    if t.startswith("===U") and t.endswith("===") and len(t) > 9:
+        return "===" + atom_text(t[3:-3]) + "==="
+    return atom_text(t)
+
+
 def text_of(toks):
-    return " ".join(atom_text(t) for t in toks)
+    return " ".join(_tok_text(t) for t in toks)
 
 
 def read_outcomes(text):
